@@ -164,74 +164,24 @@ func errCheckedAndReturned(call *ssa.Call, idx int) (bool, string) {
 // known to be non-nil (the tested error, and every phi that takes it on this path) decides a later
 // nil test, and returning it is returning an error. Every path must end in such a return (bounded).
 func errorLegReturnsIt(from, leg *ssa.BasicBlock, tested ssa.Value) bool {
-	steps := 0
-	var walk func(prev, b *ssa.BasicBlock, nonNil map[ssa.Value]bool, depth int) bool
-	walk = func(prev, b *ssa.BasicBlock, nonNil map[ssa.Value]bool, depth int) bool {
-		steps++
-		if depth > 24 || steps > 400 {
+	return allPathsReturn(from, leg, tested, func(ret *ssa.Return, resolve func(ssa.Value) ssa.Value, nonNil map[ssa.Value]bool) bool {
+		if len(ret.Results) == 0 {
 			return false
 		}
-		nn := map[ssa.Value]bool{}
-		for k := range nonNil {
-			nn[k] = true
-		}
-		for pi, pb := range b.Preds {
-			if pb != prev {
-				continue
-			}
-			for _, in := range b.Instrs {
-				phi, ok := in.(*ssa.Phi)
-				if !ok {
-					break
-				}
-				if nonNil[phi.Edges[pi]] {
-					nn[phi] = true
-				} else {
-					delete(nn, phi)
-				}
-			}
-			break
-		}
-		switch t := b.Instrs[len(b.Instrs)-1].(type) {
-		case *ssa.Return:
-			if len(t.Results) == 0 {
-				return false
-			}
-			res := t.Results[len(t.Results)-1]
-			if nn[res] {
-				return true
-			}
-			for _, v := range expandValues(res) {
-				if isNilConst(v) || !certainlyAnError(v, b) {
-					return false
-				}
-			}
+		raw := ret.Results[len(ret.Results)-1]
+		// a named result is returned through its variable: the value stored last in this block
+		res := unwrapLoadAlloc(raw)
+		if nonNil[raw] || nonNil[res] || nonNil[resolve(res)] {
 			return true
-		case *ssa.Jump:
-			return walk(b, b.Succs[0], nn, depth+1)
-		case *ssa.If:
-			if bo, ok := t.Cond.(*ssa.BinOp); ok && (bo.Op == token.NEQ || bo.Op == token.EQL) {
-				var x ssa.Value
-				if isNilConst(bo.Y) {
-					x = bo.X
-				} else if isNilConst(bo.X) {
-					x = bo.Y
-				}
-				if x != nil && nn[x] {
-					if bo.Op == token.NEQ {
-						return walk(b, b.Succs[0], nn, depth+1)
-					}
-					return walk(b, b.Succs[1], nn, depth+1)
-				}
-			}
-			if b.Parent().Signature.Results().Len() == 0 {
+		}
+		res = resolve(res)
+		for _, v := range expandValues(res) {
+			if isNilConst(v) || !certainlyAnError(v, ret.Block()) {
 				return false
 			}
-			return walk(b, b.Succs[0], nn, depth+1) && walk(b, b.Succs[1], nn, depth+1)
 		}
-		return false
-	}
-	return walk(from, leg, map[ssa.Value]bool{tested: true}, 0)
+		return true
+	})
 }
 
 // blockReturnsError: every path from b reaches (within a few blocks, no loops) a
@@ -354,6 +304,98 @@ func knownErrorCall(cc *ssa.CallCommon) bool {
 		}
 	})
 	return ok && n > 0
+}
+
+// allPathsReturn walks every CFG path from the edge from->leg to a return (bounded), resolving each
+// phi to the edge the path came in on; `tested` is known to be non-nil, and so is every phi that
+// takes a non-nil value on the path; a nil test of such a value is followed on its feasible side
+// only. accept judges the return reached, given the per-path resolution of a value.
+func allPathsReturn(from, leg *ssa.BasicBlock, tested ssa.Value, accept func(ret *ssa.Return, resolve func(ssa.Value) ssa.Value, nonNil map[ssa.Value]bool) bool) bool {
+	steps := 0
+	var walk func(prev, b *ssa.BasicBlock, env map[*ssa.Phi]ssa.Value, nonNil map[ssa.Value]bool, depth int) bool
+	walk = func(prev, b *ssa.BasicBlock, env map[*ssa.Phi]ssa.Value, nonNil map[ssa.Value]bool, depth int) bool {
+		steps++
+		if depth > 28 || steps > 600 {
+			return false
+		}
+		ne := map[*ssa.Phi]ssa.Value{}
+		for k, v := range env {
+			ne[k] = v
+		}
+		nn := map[ssa.Value]bool{}
+		for k := range nonNil {
+			nn[k] = true
+		}
+		for pi, pb := range b.Preds {
+			if pb != prev {
+				continue
+			}
+			for _, in := range b.Instrs {
+				phi, ok := in.(*ssa.Phi)
+				if !ok {
+					break
+				}
+				v := phi.Edges[pi]
+				if p2, ok := v.(*ssa.Phi); ok {
+					if r, ok := env[p2]; ok {
+						v = r
+					}
+				}
+				ne[phi] = v
+				if nonNil[phi.Edges[pi]] || nonNil[v] {
+					nn[phi] = true
+				} else {
+					delete(nn, phi)
+				}
+			}
+			break
+		}
+		resolve := func(v ssa.Value) ssa.Value {
+			if phi, ok := v.(*ssa.Phi); ok {
+				if r, ok := ne[phi]; ok {
+					return r
+				}
+			}
+			return v
+		}
+		switch t := b.Instrs[len(b.Instrs)-1].(type) {
+		case *ssa.Return:
+			return accept(t, resolve, nn)
+		case *ssa.Jump:
+			return walk(b, b.Succs[0], ne, nn, depth+1)
+		case *ssa.If:
+			if bo, ok := t.Cond.(*ssa.BinOp); ok && (bo.Op == token.NEQ || bo.Op == token.EQL) {
+				var x ssa.Value
+				if isNilConst(bo.Y) {
+					x = bo.X
+				} else if isNilConst(bo.X) {
+					x = bo.Y
+				}
+				if x != nil {
+					rx := resolve(x)
+					_, isMI := rx.(*ssa.MakeInterface)
+					if call, ok := rx.(*ssa.Call); ok && !call.Common().IsInvoke() && knownErrorCall(call.Common()) {
+						isMI = true // fmt.Errorf / errors.New ...: never nil
+					}
+					if nn[x] || nn[rx] || isMI {
+						if bo.Op == token.NEQ {
+							return walk(b, b.Succs[0], ne, nn, depth+1)
+						}
+						return walk(b, b.Succs[1], ne, nn, depth+1)
+					}
+					if isNilConst(rx) {
+						if bo.Op == token.NEQ {
+							return walk(b, b.Succs[1], ne, nn, depth+1)
+						}
+						return walk(b, b.Succs[0], ne, nn, depth+1)
+					}
+				}
+			}
+			return walk(b, b.Succs[0], ne, nn, depth+1) && walk(b, b.Succs[1], ne, nn, depth+1)
+		}
+		return false
+	}
+	return walk(from, leg, map[*ssa.Phi]ssa.Value{}, map[ssa.Value]bool{tested: true}, 0)
 }
 
 func runC16(c *Checker) {
